@@ -367,11 +367,37 @@ def builder_class(kind):
     return em.TreeBuilder if kind == "etree" else dm.TreeBuilder
 
 
-def record_parse(src, container, kind, ns=True, scripting=False):
-    """primitive-call trace of one real parse (Trace_TreeStore row)"""
+class BrokenStream(object):
+    """a text source that hands out its pieces one read() at a time and then fails"""
+
+    def __init__(self, pieces):
+        self.pieces = list(pieces)
+
+    def read(self, size=-1):
+        if size == 0:
+            return ""
+        if not self.pieces:
+            raise IOError("connection reset by peer")
+        return self.pieces.pop(0)
+
+
+def run_history(p, history):
+    """earlier use of the parser object p: each item is (source pieces, broken?): the pieces are parsed as one document; with
+    broken the source raises after the last piece; any exception (strict-mode ParseError, IOError) abandons that parse"""
+    for pieces, broken in history:
+        try:
+            p.parse(BrokenStream(pieces) if broken else "".join(pieces))
+        except Exception:
+            pass
+
+
+def record_parse(src, container, kind, ns=True, scripting=False, history=(), strict=False):
+    """primitive-call trace of one real parse (Trace_TreeStore row); with a history the parser object has been used before
+    (the recording restarts at every TreeBuilder.reset(), so the trace is that of the last parse)"""
     import html5lib
     with recording(kind):
-        p = html5lib.HTMLParser(tree=builder_class(kind), namespaceHTMLElements=ns)
+        p = html5lib.HTMLParser(tree=builder_class(kind), namespaceHTMLElements=ns, strict=strict)
+        run_history(p, history)
         raised = ""
         try:
             if container is None:
@@ -399,10 +425,11 @@ TABLE_CA = frozenset(("table", "tbody", "tfoot", "thead", "tr"))
 
 
 class Rig(object):
-    def __init__(self, kind, ns_on):
+    def __init__(self, kind, ns_on, root=True):
         self.kind = kind
         self.tb = builder_class(kind)(ns_on)             # __init__ -> reset(): recording starts here
-        self.tb.insertRoot({"type": "StartTag", "name": "html", "data": {}})
+        if root:                                         # lifecycle mode starts from the bare Document
+            self.tb.insertRoot({"type": "StartTag", "name": "html", "data": {}})
 
     def node(self, vid):
         return self.tb.document if vid == 1 else T.nodes[vid]
@@ -427,10 +454,17 @@ class Rig(object):
             tb.insertFromTable = op["fos"]
             tb.insertText(dec(op["d"]))
         elif t == "comment":
-            par = {"doc": tb.document, "root": tb.openElements[0]}.get(op["where"])
+            par = tb.document if op["where"] == "doc" else tb.openElements[0] if op["where"] == "root" else None
             tb.insertComment({"data": dec(op["d"])}, par)
         elif t == "pop":
             tb.openElements.pop()
+        elif t == "doctype":
+            ids = dec(op["d"]) if op["where"] == "ids" else None
+            tb.insertDoctype({"name": dec(op["n"]), "publicId": ids, "systemId": ids})
+        elif t == "root":
+            tb.insertRoot({"type": "StartTag", "name": "html", "data": {}})
+        elif t == "reset":                               # what HTMLParser.reset() does at the start of every parse
+            tb.reset()
         elif t == "detach":                              # InBodyPhase.startTagFrameset
             if tb.openElements[1].parent:
                 tb.openElements[1].parent.removeChild(tb.openElements[1])
@@ -556,9 +590,9 @@ def replay_behaviour(rec, kind):
     exp = rec["e"] if kind == "etree" else rec["d"]
 
     def go():
-        rig = Rig(kind, rec["nsOn"])
+        rig = Rig(kind, rec["nsOn"], root=rec["mode"] != "lifecycle")
         for step in rec["hist"]:
-            if rec["mode"] == "parser":
+            if rec["mode"] in ("parser", "lifecycle"):
                 rig.client(step)
             else:
                 rig.raw(step)
